@@ -3,6 +3,8 @@ package np
 import (
 	"fmt"
 	"strings"
+
+	"golang.org/x/tools/go/ssa"
 )
 
 // Reviewed site tables of the TCP sender/receiver core, shared by C01-C05.
@@ -211,4 +213,60 @@ func sumOfOnes(s string) (int, bool) {
 		total += cur
 	}
 	return total, true
+}
+
+// registrationFlagRule: tcp.endpoint.isRegistered is the endpoint's own record
+// of "the demultiplexer knows me"; cleanupLocked unregisters exactly when it is
+// set. The flag therefore has to follow the registration at once:
+//   - after a successful RegisterTransportEndpoint the flag is set before the
+//     function can return (a handshake that fails later still reaches
+//     cleanupLocked with the flag set, so no dead endpoint stays registered and
+//     swallows segments for its 4-tuple);
+//   - Close's inline unregistration of a listener clears it in the same branch
+//     (otherwise the worker's cleanupLocked unregisters the id a second time -
+//     by then possibly a new listener's registration).
+//
+// Shared by C09 (D8) and C03 (H9).
+func registrationFlagRule(c *Ctx, rule string) {
+	isFlagStore := func(val string) func(ssa.Instruction) bool {
+		return func(in ssa.Instruction) bool {
+			st, ok := in.(*ssa.Store)
+			if !ok {
+				return false
+			}
+			fv, base := fieldOf(st.Addr)
+			return fv != nil && fv.Name() == "isRegistered" && typeNamed(base.Type(), "tcp.endpoint") && Term(st.Val) == val
+		}
+	}
+	for _, name := range []string{"(*tcp.listenContext).createConnectedEndpoint", "(*tcp.endpoint).Listen"} {
+		fn := c.Fn(rule, name)
+		if fn == nil {
+			continue
+		}
+		regs := c.Calls(fn, Is("(*stack.Stack).RegisterTransportEndpoint"), false)
+		c.Check(len(regs) == 1, rule, name+"/one-registration", c.P.Pos(fn.Pos()), "one RegisterTransportEndpoint call", "expected exactly one RegisterTransportEndpoint call")
+		for _, r := range regs {
+			bad := reachAvoidingEdges(fn, r.(ssa.Instruction), isFlagStore("true"), IsReturn, func(e Edge) bool {
+				// the error path of the registration itself needs no flag
+				return strings.Contains(e.Atom, "RegisterTransportEndpoint(") && strings.HasSuffix(e.Atom, " == nil)") && !e.Holds
+			})
+			c.Check(bad == nil, rule, name+"/flag-follows-registration", c.pos(r), "isRegistered = true is stored on every path from the successful registration to a return", "a path from the successful registration reaches the return at "+posOf(c, bad)+" without recording it in isRegistered: if the handshake fails later, cleanupLocked will not unregister the endpoint and it keeps swallowing segments for its 4-tuple")
+		}
+	}
+	if fn := c.Fn(rule, "(*tcp.endpoint).connect"); fn != nil {
+		c.CheckSitesPresent(rule, fn, []SiteSpec{{Kind: "store", Target: "tcp.endpoint.isRegistered", Args: []string{"$0", "true"}, N: 1, Why: "an active open records its registration"}})
+	}
+	if fn := c.Fn(rule, "(*tcp.endpoint).Close"); fn != nil {
+		g := []string{"$0.isPortReserved", "$0.isRegistered"}
+		c.CheckSitesPresent(rule, fn, []SiteSpec{
+			{Kind: "call", Target: "(*stack.Stack).UnregisterTransportEndpoint", Args: []string{"$0.stack", "$0.boundNICID", "$0.effectiveNetProtos", "6", "$0.id"}, Guards: g, Exact: true, N: 1, Why: "a listener (or bound endpoint) is unregistered inline by Close"},
+			{Kind: "store", Target: "tcp.endpoint.isRegistered", Args: []string{"$0", "false"}, Guards: g, Exact: true, N: 1, Why: "... and the flag is cleared in the same branch, so that cleanupLocked does not unregister the id a second time"},
+		})
+	}
+	if fn := c.Fn(rule, "(*tcp.endpoint).cleanupLocked"); fn != nil {
+		c.CheckSitesPresent(rule, fn, []SiteSpec{
+			{Kind: "call", Target: "(*stack.Stack).UnregisterTransportEndpoint", Args: []string{"$0.stack", "$0.boundNICID", "$0.effectiveNetProtos", "6", "$0.id"}, Guards: []string{"$0.isRegistered"}, Exact: true, N: 1, Why: "the worker's cleanup unregisters exactly when the flag says the endpoint is registered"},
+		})
+	}
+	c.OnlyIn(rule, "store to tcp.endpoint.isRegistered", c.FieldStores("tcp.endpoint", "isRegistered"), "(*tcp.listenContext).createConnectedEndpoint", "(*tcp.endpoint).Listen", "(*tcp.endpoint).connect", "(*tcp.endpoint).Close")
 }
